@@ -7,11 +7,6 @@ Import ListNotations.
 Open Scope Z_scope.
 
 (* ---- schema conditions (decidable; discharged on the generated schemas by computation) ---- *)
-Fixpoint names (fs : list field) : list string :=
-  match fs with
-  | [] => []
-  | Field _ n _ ft :: r => match ft with TSkip => names r | _ => n :: names r end
-  end.
 Fixpoint str_nodup (l : list string) : bool :=
   match l with [] => true | x :: r => negb (existsb (String.eqb x) r) && str_nodup r end.
 
@@ -249,7 +244,7 @@ Lemma fields_rt : forall fs,
   str_nodup (names fs) = true ->
   forall vs pre, wf_fields fs vs = true ->
     (forall n, In n (names fs) -> ~ In n (keys pre)) ->
-    exists vs', dec_fields (pre ++ enc_fields mo fs vs) fs = Ok vs' /\
+    exists vs', dec_fields_x (pre ++ enc_fields mo fs vs) fs = Ok vs' /\
                 canon_fields fs vs' = canon_fields fs vs.
 Proof.
   induction fs as [|[g n om ft] fr IH]; intros HF Hnd vs pre Hw Hpre.
@@ -270,7 +265,7 @@ Proof.
       assert (Henc : enc_fields mo (Field g n om ft :: fr) (x :: vr) =
                      if om && is_empty x then enc_fields mo fr vr else (n, enc mo ft x) :: enc_fields mo fr vr)
         by (destruct ft; try reflexivity; discriminate Eskip).
-      assert (Hdecf : forall kv, dec_field kv n ft =
+      assert (Hdecf : forall kv, dec_field_x kv n ft =
                       match lookup n kv with None => Ok (zero ft) | Some j => dec ft j end)
         by (intros kv; destruct ft; try reflexivity; discriminate Eskip).
       rewrite Henc.
@@ -281,7 +276,7 @@ Proof.
         rewrite andb_true_iff in Eom. destruct Eom as [_ Eem].
         destruct (IH HFr Hnd vr pre Hr) as [vs' [E1 E2]]; [intros m Hm; apply Hpre; right; exact Hm|].
         exists (zero ft :: vs'). split.
-        -- cbn [dec_fields]. rewrite Hdecf, lookup_app, Hrest.
+        -- cbn [dec_fields_x]. rewrite Hdecf, lookup_app, Hrest.
            rewrite lookup_notin by (apply Hpre; left; reflexivity).
            simpl. rewrite E1. reflexivity.
         -- simpl. rewrite E2. rewrite (empty_is_zero ft x Hx Eem). reflexivity.
@@ -292,7 +287,7 @@ Proof.
           simpl in HI. destruct HI as [HI|[]]. subst m. apply Hn. exact Hm. }
         rewrite <- app_assoc in E1. simpl in E1.
         exists (x' :: vs'). split.
-        -- cbn [dec_fields]. rewrite Hdecf, lookup_app. simpl. rewrite Hrest, str_eqb_refl.
+        -- cbn [dec_fields_x]. rewrite Hdecf, lookup_app. simpl. rewrite Hrest, str_eqb_refl.
            rewrite Ex1. simpl. rewrite E1. reflexivity.
         -- simpl. rewrite Ex2, E2. reflexivity.
 Qed.
@@ -332,7 +327,9 @@ Proof.
     apply wf_struct_inv in H. destruct H as [vs [-> Hw]].
     destruct (fields_rt fs (IH Hf) Hnd vs [] Hw) as [vs' [E1 E2]]; [intros n _ []|].
     exists (VStruct vs'). split.
-    + rewrite enc_struct, dec_struct. simpl in E1. rewrite E1. reflexivity.
+    + rewrite enc_struct, dec_struct.
+      rewrite dec_fields_exact by (intros k Hk; eapply keys_enc_fields; exact Hk).
+      simpl in E1. rewrite E1. reflexivity.
     + rewrite !canon_struct, E2. reflexivity.
   - (* Q [] *) intros _. constructor.
   - (* Q cons *) intros g n o t fs IHt IHfs Hok. simpl in Hok. rewrite andb_true_iff in Hok.
